@@ -139,3 +139,15 @@ Section EmplacePos.
     apply in_or_app. right. left. f_equal; ring.
   Qed.
 End EmplacePos.
+
+(* C16 / C07: emplace(position) within capacity never touches the allocator and keeps block
+   and capacity (every list: the events are those of emplace_back plus raw byte moves) *)
+From Cntgs Require Import StableThm.
+Theorem emplace_pos_no_alloc L v i t :
+  no_alloc (snd (emplace_pos L v i t)) /\ v_bid (fst (emplace_pos L v i t)) = v_bid v /\
+  v_cap (fst (emplace_pos L v i t)) = v_cap v.
+Proof.
+  unfold emplace_pos. destruct (emplace_back_no_alloc L v t) as (H1 & H2 & H3).
+  destruct (emplace_back L v t) as [v1 e1]. cbn [fst snd] in *.
+  split; [apply no_alloc_app; [exact H1|reflexivity]|]. split; [exact H2|exact H3].
+Qed.
